@@ -7,7 +7,7 @@ from sa.astx import body_walk, call_attr, call_name, dotted, src
 from sa.effects import accesses
 from sa.selftest import Mutant, Silent
 from sa.source import AnalysisError, methods, mro_lookup
-from sa.props._lib_c import (section, LOGGER, assign_pairs, enclosing, gfind, is_const, isolating_with, must_pass, no_exc, parents, self_attr,
+from sa.props._lib_c import (section, EvalUnsupported, Interp, SelfRef, LOGGER, assign_pairs, enclosing, gfind, is_const, isolating_with, must_pass, no_exc, parents, self_attr,
                              swallowing_predicate)
 
 PROPERTY = "C13"
@@ -26,7 +26,7 @@ EXPLANATION = (
     "deletes exactly the counted prefix on every path after the loop and wakes itself when entries remain; mainLoop drains on every "
     "iteration inside its top handler; wakeUp() reaches waker.wakeUp() whenever a waker exists, installWaker registers the waker as "
     "reader, the wakers write a non-empty byte string to the write end of the pipe/socket pair; AsyncioSelectorReactor hands the "
-    "call to call_soon_threadsafe unchanged. Not decided: thread interleavings, the GIL-atomicity of list.append, latency, IOCP / "
+    "call to call_soon_threadsafe unchanged, and its timer fields are coupled (every writer of _timerHandle/_scheduledAt keeps `deadline recorded => live handle`, else callLater's re-arm decision is evaluated over the unrestricted state table). Not decided: thread interleavings, the GIL-atomicity of list.append, latency, IOCP / "
     "threadedselect wakers."
 )
 ASSUMPTIONS = [
@@ -402,7 +402,7 @@ def check(ctx):
         ctx.check(bool(rs), "asyncio/timer-rescheduled", q, "a new delayed call never re-arms the asyncio timer: callFromThread's callLater(0, ...) waits for the previous deadline")
         for n in rs:
             conds = {src(g.node(t).ast) for t, lab in g.edge_guards(n)}
-            ctx.check(all("self._scheduledAt" in c for c in conds), "asyncio/timer-rescheduled", ctx.construct(q, g.node(n).ast),
+            ctx.check(all("self._scheduledAt" in c or "self._timerHandle" in c for c in conds), "asyncio/timer-rescheduled", ctx.construct(q, g.node(n).ast),
                       "re-arming the timer depends on: " + ", ".join(sorted(conds)))
         tests = g.ids(lambda n: n.kind == "test" and src(n.ast) == "self._scheduledAt is None")
         for t in tests:
@@ -420,6 +420,123 @@ def check(ctx):
         ru = gfind(g, lambda x: _is_call(x, "self.runUntilCurrent"))
         w = must_pass(g, [g.entry], ru, exc=False)
         ctx.check(bool(ru) and w is None, "asyncio/timer-runs-calls", q, "the asyncio timer callback does not run the due calls", witness=g.describe(w))
+
+    # ---- asyncio: _timerHandle and _scheduledAt describe one armed timer ------------------------------------------------------
+    with section(ctx, "asyncio timer fields coupled"):
+        _timer_coupling(ctx)
+
+
+def _timer_coupling(ctx):
+    """Lemma (coupled fields): `_scheduledAt is not None` => a live handle is armed for that time; hence
+    `no live handle` => `_scheduledAt is None`.  Decided over every writer of the two attributes in
+    AsyncioSelectorReactor.  Then the re-arm decision of callLater is evaluated as a finite table over
+    (handle armed?, _scheduledAt None/past/future, new deadline earlier/later): whenever no handle is armed,
+    or none is recorded, or the new deadline is earlier, the decision must be 're-arm'.  Rows excluded by
+    the lemma are only dropped when the lemma holds; a writer that breaks the lemma is reported with the
+    row of the table that then leaves a call unarmed."""
+    cls = ctx.cls(ASYNCIO, "AsyncioSelectorReactor")
+    QA = "twisted.internet.asyncioreactor.AsyncioSelectorReactor"
+    broken = []   # (construct key, description)
+    nsites = 0
+    callbacks = set()
+    for name, fn in methods(cls).items():
+        if name == "__init__":
+            continue
+        touches = any(self_attr(x, "_timerHandle") or self_attr(x, "_scheduledAt") for x in ast.walk(fn))
+        if not touches:
+            continue
+        g = ctx.cfg(fn)
+        ctx.functions.add(f"{ASYNCIO}:AsyncioSelectorReactor.{name}")
+        q = f"{QA}.{name}"
+
+        def arm_value(v):
+            return isinstance(v, ast.Call) and isinstance(v.func, ast.Attribute) and v.func.attr in ("call_at", "call_later") and len(v.args) >= 2
+        arms = g.ids(lambda n: n.kind == "stmt" and any(self_attr(t, "_timerHandle") and arm_value(v) for t, v in assign_pairs(n.ast)))
+        for a in arms:
+            v = next(v for t, v in assign_pairs(g.node(a).ast) if self_attr(t, "_timerHandle"))
+            if self_attr(v.args[1]):
+                callbacks.add(v.args[1].attr)
+        sched_none = g.ids(lambda n: n.kind == "stmt" and any(self_attr(t, "_scheduledAt") and is_const(v, None) for t, v in assign_pairs(n.ast)))
+        sched_set = g.ids(lambda n: n.kind == "stmt" and any(self_attr(t, "_scheduledAt") and not is_const(v, None) for t, v in assign_pairs(n.ast)))
+        clears = g.ids(lambda n: n.kind == "stmt" and any(self_attr(t, "_timerHandle") and not arm_value(v) for t, v in assign_pairs(n.ast)))
+        clears += [n for n in gfind(g, lambda x: _is_call(x, "self._timerHandle.cancel")) if n not in clears]
+        for c in clears:
+            nsites += 1
+            after = must_pass(g, [d for d, l in g.succ[c] if l != "exc"], set(sched_none) | set(arms), exc=False)
+            before = bool(sched_none) and g.must_precede(sched_none, [c]) is None and g.path(sched_set, [c]) is None
+            if after is not None and not before:
+                broken.append((ctx.construct(q, g.node(c).ast), "the armed handle is cancelled / dropped while _scheduledAt keeps its deadline", g.describe(after)))
+        for sset in sched_set:
+            nsites += 1
+            val = next(v for t, v in assign_pairs(g.node(sset).ast) if self_attr(t, "_scheduledAt"))
+            good = [a for a in arms if src(next(v for t, v in assign_pairs(g.node(a).ast) if self_attr(t, "_timerHandle")).args[0]) == src(val)]
+            w = must_pass(g, [d for d, l in g.succ[sset] if l != "exc"], good, exc=False)
+            if w is not None:
+                broken.append((ctx.construct(q, g.node(sset).ast), "a deadline is recorded in _scheduledAt without a handle being armed for it", g.describe(w)))
+    # the handle's own callback: the handle is spent when it runs, so the record must be dropped first
+    for cbname in sorted(callbacks):
+        fn = methods(cls).get(cbname)
+        if fn is None:
+            continue
+        g = ctx.cfg(fn)
+        nsites += 1
+        resets = g.ids(lambda n: n.kind == "stmt" and any(self_attr(t, "_scheduledAt") and is_const(v, None) for t, v in assign_pairs(n.ast)))
+        users = gfind(g, lambda x: isinstance(x, ast.Call) and call_name(x) in ("self.runUntilCurrent", "self._reschedule", "self.callLater"))
+        w = g.must_precede(resets, users) if users else must_pass(g, [g.entry], resets, exc=False)
+        if not resets or w is not None:
+            broken.append((f"{QA}.{cbname}", "the timer callback (its handle is spent) keeps the stale deadline in _scheduledAt while calls are run / rescheduled", g.describe(w)))
+    lemma = not broken
+    ctx.need(nsites >= 3, "writers of _timerHandle/_scheduledAt in AsyncioSelectorReactor")
+
+    # decision table of callLater's re-arm condition
+    f = ctx.func(ASYNCIO, "AsyncioSelectorReactor.callLater")
+    q = f"{QA}.callLater"
+    rcalls = [c for c in body_walk(f) if _is_call(c, "self._reschedule")]
+    rows_bad = []
+    nrows = 0
+    for c in rcalls:
+        tests = [p for p in parents(c) if isinstance(p, ast.If)]
+        tests = [p for p in tests if any(x is c for st in p.body for x in ast.walk(st))]
+        if any(any(x is c for st in p.orelse for x in ast.walk(st)) for p in parents(c) if isinstance(p, ast.If)):
+            raise AnalysisError("C13: _reschedule() in an else-branch of callLater: decision shape not recognised")
+        free = sorted({n.id for t in tests for n in ast.walk(t.test) if isinstance(n, ast.Name) and n.id != "self"})
+        if len(free) > 1:
+            raise AnalysisError(f"C13: re-arm condition of callLater has several free variables: {free}")
+        NOW = 10.0
+        handle = SelfRef({})
+        for h in (None, handle):
+            for sched in (None, 5.0, 20.0):
+                for new in (12.0, 30.0):
+                    if lemma and h is None and sched is not None:
+                        continue  # excluded by the coupling lemma
+                    must = h is None or sched is None or new < sched
+                    if not must:
+                        continue
+                    nrows += 1
+                    it = Interp(SelfRef({"_scheduledAt": sched, "_timerHandle": h}), {}, {})
+                    env = {"__outer__": None}
+                    if free:
+                        env[free[0]] = new
+                    try:
+                        dec = all(it.truth(it.expr(t.test, env)) for t in tests)
+                    except EvalUnsupported as e:
+                        raise AnalysisError(f"C13: re-arm condition of callLater outside the evaluable subset: {e}")
+                    if not dec:
+                        rows_bad.append(f"handle {'armed' if h is not None else 'None'}, _scheduledAt={sched} ({'none' if sched is None else 'past' if sched < NOW else 'future'}), "
+                                        f"now={NOW}, new deadline={new}: decision is 'do not re-arm'")
+    ctx.need(rcalls, "self._reschedule() in asyncio callLater")
+    if lemma:
+        ctx.ok("asyncio/timer-fields-coupled", QA, f"{nsites} writer sites keep `_scheduledAt is not None => live handle`")
+        ctx.check(not rows_bad, "asyncio/rearm-decision", q, "callLater does not arm the timer although it must: " + "; ".join(rows_bad[:2]), detail=f"{nrows} rows")
+    elif not rows_bad:
+        ctx.ok("asyncio/timer-fields-coupled", QA, "fields decoupled at " + "; ".join(k for k, _, _ in broken) + " but callLater's decision re-arms whenever no handle is armed")
+        ctx.ok("asyncio/rearm-decision", q, f"{nrows} rows (unrestricted)")
+    else:
+        for key, what, wit in broken:
+            ctx.violation("asyncio/timer-fields-coupled", key,
+                          what + ": afterwards callLater never arms a timer (" + rows_bad[0] + "), so every callFromThread call, which goes through callLater(0, ...), "
+                          "stays in the heap until an unrelated timer fires", wit)
+        ctx.violation("asyncio/rearm-decision", q, "with the fields decoupled, callLater does not arm the timer although none is armed: " + "; ".join(rows_bad[:2]))
 
 
 def is_zero(e):
@@ -454,6 +571,11 @@ MUTANTS = [
     Mutant("wakeUp-only-when-not-running", BASE, "        if self.waker:\n            self.waker.wakeUp()\n", "        if self.waker and not self.running:\n            self.waker.wakeUp()\n",
            expect_rule="wake/reaches-waker"),
     Mutant("pipe-ends-swapped", SIGNALS, "        self.i, self.o = os.pipe()\n", "        self.o, self.i = os.pipe()\n", expect_rule="waker/writes-to-write-end"),
+    Mutant("asyncio-crash-drops-handle-keeps-deadline", ASYNCIO, "        super().crash()\n        self._asyncioEventloop.stop()\n",
+           "        super().crash()\n        handle, self._timerHandle = self._timerHandle, None\n        if handle is not None:\n            handle.cancel()\n        self._asyncioEventloop.stop()\n",
+           expect_rule="asyncio/timer-fields-coupled"),
+    Mutant("asyncio-timer-callback-keeps-deadline", ASYNCIO, "        self._scheduledAt = None\n        self.runUntilCurrent()\n        self._reschedule()\n",
+           "        self.runUntilCurrent()\n        self._reschedule()\n", expect_rule="asyncio/timer-fields-coupled"),
     Mutant("asyncio-timer-only-rearmed-for-later", ASYNCIO, "        if self._scheduledAt is None or abs_time < self._scheduledAt:\n", "        if self._scheduledAt is None or abs_time > self._scheduledAt:\n",
            expect_rule="asyncio/timer-rescheduled"),
 ]
@@ -466,6 +588,11 @@ SILENT = [
            "                count += 1\n                with _threadCallHandler:\n                    f(*a, **kw)\n"),
     Silent("asyncio-nested-def", ASYNCIO, "        g = lambda: self.callLater(0, f, *args, **kwargs)\n        self._asyncioEventloop.call_soon_threadsafe(g)\n",
            "        def runInLoop():\n            self.callLater(0, f, *args, **kwargs)\n\n        self._asyncioEventloop.call_soon_threadsafe(runInLoop)\n"),
+    Silent("asyncio-crash-resets-both-timer-fields", ASYNCIO, "        super().crash()\n        self._asyncioEventloop.stop()\n",
+           "        super().crash()\n        if self._timerHandle is not None:\n            self._timerHandle.cancel()\n            self._timerHandle = None\n        self._scheduledAt = None\n        self._asyncioEventloop.stop()\n"),
+    Silent("asyncio-crash-drops-handle-and-callLater-tests-handle", ASYNCIO, "        super().crash()\n        self._asyncioEventloop.stop()\n",
+           "        super().crash()\n        if self._timerHandle is not None:\n            self._timerHandle.cancel()\n            self._timerHandle = None\n        self._asyncioEventloop.stop()\n",
+           more=[(ASYNCIO, "        if self._scheduledAt is None or abs_time < self._scheduledAt:\n", "        if self._timerHandle is None or self._scheduledAt is None or abs_time < self._scheduledAt:\n")]),
     Silent("waker-explicit-none-test", BASE, "        if self.waker:\n            self.waker.wakeUp()\n", "        if self.waker is not None:\n            self.waker.wakeUp()\n"),
     Silent("no-total-snapshot", BASE, "                count += 1\n                if count == total:\n                    break\n", "                count += 1\n"),
 ]
